@@ -468,6 +468,15 @@ class Master(loader.Loader):
             placement_node = z.path.placement(servername)
             correct = set(server.apps.keys())
 
+            for app in correct & current[servername]:
+                # Placement data (identity, expiry) may have been
+                # re-evaluated while the placement was restored.
+                placement_data = self._placement_data(app)
+                app_node = os.path.join(placement_node, app)
+                if self.backend.get_default(app_node) != placement_data:
+                    _LOGGER.info('Updating: %s - %s', servername, app)
+                    self.backend.put(app_node, placement_data)
+
             for app in correct - current[servername]:
                 _LOGGER.info('Scheduling: %s - %s,%s',
                              servername, app, self.cell.apps[app].identity)
